@@ -220,7 +220,7 @@ _sink(struct pcp_server *svr, char *targ, BUF *bufp) {
     off_t i, j, size;
     char ch;
     const char *why = "failed to set 'why' string";
-    int amt, count, exists, mask, mode;
+    int amt, count, exists, mode;
     int ofd, setimes, targisdir, cursize = 0;
     char *np, *buf = NULL, *namebuf = NULL;
 
@@ -234,9 +234,8 @@ _sink(struct pcp_server *svr, char *targ, BUF *bufp) {
     }
 
     setimes = targisdir = 0;
-    mask = umask(0);
-    if (!svr->preserve)
-        (void)umask(mask);
+    if (svr->preserve)
+        (void)umask(0);
 
     if (svr->target_is_dir) {
         if (_verifydir(svr, svr->outfile) < 0)
